@@ -361,7 +361,7 @@ TIMEKEYS = dict(normal=['loc', 'scale'], expon=['scale'], uniform=['low', 'high'
                 weibull=['scale', 'loc'], gamma=['scale', 'loc'], randint=['low', 'high'])
 
 
-def timepar_case(sc):
+def timepar_case(sc, draws=1):
     """ run one time-wrapped scenario on the real code: (scaled variates, raw variates, float32?) """
     import starsim as ss
     fam, kind, u1, u2, dt2 = sc['fam'], sc['kind'], sc['u1'], sc['u2'], sc['dt2']
@@ -381,19 +381,25 @@ def timepar_case(sc):
         elif hist == 'reinit':
             tp.init(parent_unit=u2, parent_dt=dt2)
         return tp
-    sp = sc['sp']; extra = sc.get('extra', {})
+    sp = {k: (np.asarray(v, dtype=sc.get('sp_dtype', {}).get(k)) if isinstance(v, list) else (v.copy() if isinstance(v, np.ndarray) else v)) for k, v in sc['sp'].items()}
+    sp_raw = {k: (v.copy() if isinstance(v, np.ndarray) else v) for k, v in sp.items()}      # the twin gets its own arrays: nothing is shared
+    extra = sc.get('extra', {})
     slots = np.arange(sc['n']); req = sc['req']
     wrapped = {k: (W(v) if k in TIMEKEYS[fam] else v) for k, v in sp.items()}
     d = getattr(ss, fam)(**wrapped, **extra); d.init(trace=sc['tr'], seed=1, sim=c03.Sim0(slots), slots=slots); d.jump_dt(ti=1)
-    raw = getattr(ss, fam)(**sp, **extra); raw.init(trace=sc['tr'], seed=1, sim=c03.Sim0(slots), slots=slots); raw.jump_dt(ti=1)
-    a0 = np.asarray(d.rvs(ss.uids(req))); f32 = a0.dtype == np.float32
-    return a0.astype(float), np.asarray(raw.rvs(ss.uids(req)), dtype=float), bool(f32)
+    raw = getattr(ss, fam)(**sp_raw, **extra); raw.init(trace=sc['tr'], seed=1, sim=c03.Sim0(slots), slots=slots); raw.jump_dt(ti=1)
+    a0 = np.asarray(d.rvs(ss.uids(req))); f32 = a0.dtype == np.float32 or any(isinstance(v, np.ndarray) and v.dtype == np.float32 for v in sp.values())
+    b0 = np.asarray(raw.rvs(ss.uids(req)), dtype=float)
+    for k in range(2, int(draws) + 1):      # further draws after a jump: the last one is returned
+        d.jump_dt(ti=k); raw.jump_dt(ti=k)
+        a0 = np.asarray(d.rvs(ss.uids(req))); b0 = np.asarray(raw.rvs(ss.uids(req)), dtype=float)
+    return a0.astype(float), b0, bool(f32)
 
 
-def timepar_oracle(sc, ul=None):
+def timepar_oracle(sc, ul=None, draws=1):
     """ the property's clause on the real code alone: variates = raw variates x (or /) exactly the conversion factor """
     ul = ul or dict(day=Fraction(1), week=Fraction(7), month=Fraction(487, 16), year=Fraction(1461, 4))
-    a, b, f32 = timepar_case(sc)
+    a, b, f32 = timepar_case(sc, draws)
     factor = float((Fraction(1) / Fraction(str(sc['dt2']))) * (Fraction(ul[sc['u1']]) / Fraction(ul[sc['u2']])))
     exp = b * factor if sc['kind'] == 'dur' else b / factor
     ok = np.allclose(a, exp, rtol=1e-6 if f32 else 1e-12, atol=0)
@@ -401,6 +407,40 @@ def timepar_oracle(sc, ul=None):
         return (f"ss.{sc['fam']} with ss.{sc['kind']}-wrapped parameters ({sc['u1']} in steps of {sc['dt2']} {sc['u2']}; wrapper history `{sc.get('hist', 'fresh')}`): variates {a[:3]} are not the unwrapped "
                 f"variates {b[:3]} {'times' if sc['kind'] == 'dur' else 'divided by'} the conversion factor {factor:.6g} (= {exp[:3]})")
     return None
+
+
+def timepar_modes(ctx):
+    """ always exercised, on the real code alone: a time-wrapped parameter given as a scalar, as a per-agent float64 / float32 / integer
+        array, for every family that accepts one, both wrapper classes, two conversion factors != 1, every wrapper history, drawn TWICE
+        (a second draw after a jump must scale by the same factor again: nothing may be rescaled in place between draws) """
+    import starsim as ss
+    rng = ctx.rng
+    ul = unit_len(ctx)
+    n = 7
+    for fam in ['normal', 'expon', 'uniform', 'lognorm_ex', 'constant', 'weibull', 'gamma']:
+        sps, tabs = gen_pars(fam, rng, n)
+        for mode in ['scalar', 'array64', 'array32', 'arrayint']:
+            sp = dict(sps)
+            for k in TIMEKEYS[fam]:
+                if k not in tabs or mode == 'scalar': continue
+                t = np.asarray(tabs[k], dtype=float)
+                if mode == 'array32': t = t.astype(np.float32)
+                if mode == 'arrayint': t = np.maximum(1, np.round(np.abs(t) * 3)).astype(int) + (3 if k in ('high',) else 0)
+                sp[k] = t
+            if fam == 'uniform' and mode == 'arrayint': sp['low'] = np.zeros(n, dtype=int)
+            if fam == 'lognorm_ex' and mode == 'arrayint': continue     # integer std/mean tables: rejected shapes vary; floats cover the family
+            for kind, (u1, u2, dt2) in [('dur', ('week', 'day', 2.0)), ('rate', ('day', 'year', 0.25))]:
+                sc = dict(fam=fam, kind=kind, u1=u1, u2=u2, dt2=dt2, sp=sp, extra={}, n=n, req=list(range(n)), tr='tpm_%s_%s' % (fam, mode),
+                          hist=['fresh', 'set', 'set-both', 'reinit'][rng.randint(0, 3)], other=('month', 0.5))
+                try:
+                    msg = timepar_oracle(sc, ul, draws=2)
+                except Exception as e:
+                    ctx.count('timepar_mode_exceptions'); ctx.notes['last_timepar_mode_exception'] = f'{fam} {mode} {kind}: {type(e).__name__}: {e}'; continue
+                ctx.count('timepar_mode_runs')
+                if msg:
+                    jsc = dict(sc, sp={k: (v.tolist() if isinstance(v, np.ndarray) else v) for k, v in sp.items()},
+                               sp_dtype={k: str(v.dtype) for k, v in sp.items() if isinstance(v, np.ndarray)})
+                    ctx.fail(dict(oracle='timepar-scaling', family=fam, wrapper=kind), f'[{mode} parameters] ' + msg, dict(kind='timepar', sc=jsc, draws=2))
 
 
 def correspond_timepars(ctx):
@@ -722,6 +762,7 @@ def search(ctx):
         ctx.count('law_checks')
         if msg:
             ctx.fail(law_signature(msg, fam, mode), f'ss.{fam} ({mode}) with {P}: {msg}', dict(kind='law', family=fam, mode=mode, pars=P, N=N, seed=seed))
+    timepar_modes(ctx)
     for _ in range(ctx.budget(5, 40)):
         seed = ctx.rng.randint(0, 10**6); n = ctx.rng.randint(20, 300)
         st = ctx.rng.getstate()
@@ -761,7 +802,7 @@ def replay(ctx, data):
         d = ss.randint(low=np.array([data['low']]), high=np.array([data['high']])); d.init(trace='f', seed=0, sim=c03.Sim0(np.arange(1)), slots=np.arange(1)); d._pars = d.pars
         g = int(d.ppf(np.array([data['u']]))[0]); return not (data['low'] <= g < data['high'])
     if k == 'timepar':
-        return timepar_oracle(data['sc']) is not None
+        return timepar_oracle(data['sc'], draws=data.get('draws', 1)) is not None
     if k == 'bern_tp':
         try: return bern_tp_case(**{kk: data[kk] for kk in ('mode', 'u1', 'u2', 'dt2', 'n', 'tabseed')})[0] is not None
         except Exception: return True
